@@ -30,13 +30,28 @@ WithFallback(normal, fb) ==
 CountVar == <<"LB", "LB", "SP", "c", "o", "u", "n", "t", "SP", "RB", "RB">>
 ValueOf(b) == BranchTag(b.tag) \o <<"COLON">> \o CountVar
 
-\* sp = [syntax |-> "seq" | "obj", alts |-> "pipe" | "list", num |-> BOOLEAN]
-SpecNode(s, ty, sp) == IF sp.num /\ s.f = "exact" THEN RawSym(Anchor[ty][s.a]) ELSE StrNode(SpecText(s, ty))
+\* sp = [syntax |-> "seq" | "obj", alts |-> "pipe" | "list", num |-> BOOLEAN, ws |-> BOOLEAN]
+\* ws: blanks wherever they are harmless - around the bounds, around `..` / `..=`, at both ends - and none around `|`
+SpecTextW(s, ty, ws) ==
+    IF ~ws THEN SpecText(s, ty) ELSE
+    LET A == Anchor[ty]
+        B(i) == IF i = 0 THEN <<>> ELSE A[i] IN
+    <<"SP">> \o (CASE s.f = "exact" -> A[s.a]
+                   [] s.f = "excl"  -> B(s.lo) \o <<"SP", "DOT", "DOT", "SP">> \o B(s.hi)
+                   [] s.f = "incl"  -> B(s.lo) \o <<"SP", "DOT", "DOT", "EQ", "SP">> \o B(s.hi)
+                   [] s.f = "full"  -> <<"DOT", "DOT">>
+                   [] OTHER         -> <<"US">>) \o <<"SP">>
+RECURSIVE JoinPipeW(_, _, _)
+JoinPipeW(alts, ty, ws) ==
+    IF ~ws THEN JoinPipe(alts, ty)
+    ELSE IF Len(alts) = 1 THEN SpecTextW(alts[1], ty, ws)
+    ELSE SpecTextW(alts[1], ty, ws) \o <<"PIPE">> \o JoinPipeW(Tail(alts), ty, ws)
+SpecNode(s, ty, sp) == IF sp.num /\ s.f = "exact" THEN RawSym(Anchor[ty][s.a]) ELSE StrNode(SpecTextW(s, ty, sp.ws))
 
 BranchNode(b, ty, sp) ==
     LET implicit == "implicit" \in DOMAIN b
         counts == IF sp.alts = "pipe" \/ Len(b.alts) = 1
-                  THEN << IF Len(b.alts) = 1 THEN SpecNode(b.alts[1], ty, sp) ELSE StrNode(JoinPipe(b.alts, ty)) >>
+                  THEN << IF Len(b.alts) = 1 THEN SpecNode(b.alts[1], ty, sp) ELSE StrNode(JoinPipeW(b.alts, ty, sp.ws)) >>
                   ELSE [j \in DOMAIN b.alts |-> SpecNode(b.alts[j], ty, sp)] IN
     IF sp.syntax = "seq"
     THEN SeqNode(<<StrNode(ValueOf(b))>> \o (IF implicit THEN <<>> ELSE counts))
@@ -45,7 +60,7 @@ BranchNode(b, ty, sp) ==
                  \o << <<"value", StrNode(ValueOf(b))>> >>)
 
 DeclNode(branches, ty, typed, sp) ==
-    SeqNode((IF typed THEN <<StrNode(TySym[ty])>> ELSE <<>>) \o [j \in DOMAIN branches |-> BranchNode(branches[j], ty, sp)])
+    SeqNode((IF typed THEN <<StrNode(IF sp.ws THEN <<"SP">> \o TySym[ty] \o <<"SP">> ELSE TySym[ty])>> ELSE <<>>) \o [j \in DOMAIN branches |-> BranchNode(branches[j], ty, sp)])
 
 \* count literals that can be tried without risking a (legitimate) rejection of the whole project
 Counts(branches, ty) ==
